@@ -2,6 +2,7 @@ import ModVerif.Drv.MainLoop
 import ModVerif.Drv.Tlog
 import ModVerif.Drv.Tile
 import ModVerif.Drv.GenTlog
+import ModVerif.Drv.GenTile
 open ModVerif.Drv
 
-def main : IO Unit := runMain [("tlog", Tlog.handle), ("tile", Tile.handle), ("gtlog", GenTlog.handle)]
+def main : IO Unit := runMain [("tlog", Tlog.handle), ("tile", Tile.handle), ("gtlog", GenTlog.handle), ("gtile", GenTile.handle)]
